@@ -2462,4 +2462,5 @@ package ucfg
 //@ props C07
 //@ nonil
 //@ uses chase
+//@ requires c != nil && c.fields != nil
 //@ modifies *
